@@ -972,6 +972,8 @@ def render(s, ind=2):
     pad = ' ' * ind
     if k == 'skip':
         return pad + '.skip'
+    if k == 'ref':
+        return pad + s[1]
     if k == 'deepcopy':
         return pad + '.deepcopy %d %d' % (s[1], s[2])
     if k == 'derive':
@@ -997,6 +999,18 @@ def wrap(s, ind):
     r = render(s, ind)
     pad = ' ' * ind
     return pad + '(' + r[len(pad):] + ')'
+
+
+def count_shallow(s):
+    """size of a statement, hoisted parts counting as one"""
+    k = s[0]
+    if k == 'choice':
+        return 1 + count_shallow(s[1]) + count_shallow(s[2])
+    if k == 'loop':
+        return 1 + count_shallow(s[1])
+    if k == 'block':
+        return sum(count_shallow(x) for x in s[1])
+    return 1
 
 
 def count(s):
@@ -1040,6 +1054,10 @@ def targets(S):
     T.append(('writers/write.py', 'write_formatted_basis_str', ['basis']))
     T.append(('validator.py', 'validate_data', ['data']))
     T.append(('refconverters/convert.py', 'convert_references', ['ref_data']))
+    # the retrieval API: the element selection is the only container a caller hands in
+    T.append(('api.py', 'get_basis', ['elements']))
+    T.append(('api.py', 'get_references', ['elements']))
+    T.append(('api.py', 'filter_basis_sets', ['elements']))
     return T
 
 
@@ -1064,12 +1082,33 @@ def gen_ownskel(S, info):
     info['own_skeletons'] = len(rows)
     info['own_report'] = rep
     out = ['import BSEModel.Heap', '/-! generated from the function bodies of manip, sort, writers, curate.compare, curate.diff, validator, refconverters — do not edit -/',
-           'namespace BSE.Gen.OwnSkel', 'open BSE.Heap', '',
+           'set_option maxRecDepth 8192', 'namespace BSE.Gen.OwnSkel', 'open BSE.Heap', '',
            'def blk : List Stmt → Stmt', '  | [] => .skip', '  | [s] => s', '  | s :: rest => .seq s (blk rest)', '']
     names = []
+    aux = [0]
+
+    def hoist(st, prefix, defs):
+        """large sub-statements become definitions of their own (the elaborator does not like very deep terms)"""
+        k = st[0]
+        if k == 'choice':
+            st = ('choice', hoist(st[1], prefix, defs), hoist(st[2], prefix, defs))
+        elif k == 'loop':
+            st = ('loop', hoist(st[1], prefix, defs))
+        elif k == 'block':
+            st = ('block', [hoist(x, prefix, defs) for x in st[1]])
+        if k in ('choice', 'loop', 'block') and count_shallow(st) > 120:
+            aux[0] += 1
+            nm = '%s_p%d' % (prefix, aux[0])
+            defs.append('def %s : Stmt :=\n%s\n' % (nm, wrap(st, 2)))
+            return ('ref', nm)
+        return st
+
     for i, (label, params, body) in enumerate(rows):
         nm = 'sk_' + label.replace('.', '_')
         names.append(nm)
+        defs = []
+        body = hoist(body, nm, defs)
+        out += defs
         out.append('def %s : Skel := { name := %s, params := [%s], body :=' % (nm, lstr(label), ', '.join(map(str, params))))
         out.append(wrap(body, 2) + ' }')
         out.append('')
